@@ -4,8 +4,13 @@ import json,sys
 p='/verif/known_findings.json'
 d=json.load(open(p))
 id_,prop,gates,what=sys.argv[1:5]
-wit=json.loads(sys.argv[5]) if len(sys.argv)>5 else None
+wit=json.loads(sys.argv[5]) if len(sys.argv)>5 and sys.argv[5] else None
 e={"id":id_,"property":prop,"status":"known","what":what,"gates":[g for g in gates.split(',') if g],"witness":wit}
+if len(sys.argv)>6:
+    e["status"]="fixed"; e["commit"]=sys.argv[6]; e["gates"]=[]
+    e["line"]="fixed: property=%s %s %s"%(prop,sys.argv[6],what)
+if len(sys.argv)>7:
+    e["scope"]=sys.argv[7]
 d['findings']=[f for f in d['findings'] if f['id']!=id_]+[e]
 d['findings'].sort(key=lambda f:f['id'])
 json.dump(d,open(p,'w'),indent=1,ensure_ascii=False)
